@@ -437,6 +437,16 @@ func runC09(c *mc.Ctx) {
 			c09EvalMurmur(w, c09Murmur{Seed: seeds[2+3*(i%2)], Data: mc.Hex(bytesOfLen(five, n, i/2))})
 		})
 	}
+	for _, n := range []int{127, 128, 129, 255, 256, 257, 1000, 4095, 4096, 65535, 65536, 65537} { // long inputs (length counters, tail handling)
+		for _, f := range five {
+			w := c.Worker()
+			w.State()
+			b := bytes.Repeat([]byte{f}, n)
+			b[n-1] ^= 0x80
+			c09EvalMurmur(w, c09Murmur{Seed: 0xfba4c795, Data: mc.Hex(b)})
+			w.Done()
+		}
+	}
 	for n := 10; n <= 70; n++ { // longer inputs, structured
 		for _, f := range five {
 			w := c.Worker()
